@@ -51,6 +51,7 @@ def run(ctx):
     E.rule_batch_order(res, "C08-R5", m)
     E.rule_header_fully_stamped(res, "C08-R6", m)
     E.rule_state_reset(res, "C08-R7", "C08-R7", m)
+    E.rule_limits_taken_unchanged(res, "C08-R7", m)  # the maximum the fit test works against is the caller's, in every entry point
     E.rule_writes_inside_frame(res, "C08-R7", m, placement=True)
     E.rule_last_segment_closes_frame(res, "C08-R8", m)
     res.floor("C08-R8", 1)
